@@ -98,7 +98,8 @@ def build_mcmc(arg):
     jacobians_list = create_jacobians(json_list)
     if arg.clock is not None and arg.heights == "ratio":
         jacobians_list.append("tree")
-    if arg.coalescent in COALESCENT_PIECEWISE:
+    if arg.coalescent in COALESCENT_PIECEWISE and not arg.coalescent_non_centered:
+        # centred case only: the GMRF prior is placed on coalescent.theta.log, the child of coalescent.theta
         jacobians_list.remove("coalescent.theta")
 
     joint_jacobian = {
